@@ -30,7 +30,7 @@ def check_stream(ctx, o, spec, tag, label, case, cache_hits_expected=None):
     if o.deadlock or o.inconclusive:
         ctx.inconc(o.inconclusive or "deadlock")
         return
-    rejected = o.exc is not None and not any(e[0] in ("run_begin",) for e in o.rec.ev) and type(o.exc).__name__ in ("MissingInputError", "ValueError", "GraphConfigError", "IncompatibleRunnerError", "TypeError")
+    rejected = o.exc is not None and not any(e[0] in ("run_begin", "enter") for e in o.rec.ev) and type(o.exc).__name__ in ("MissingInputError", "ValueError", "GraphConfigError", "IncompatibleRunnerError", "TypeError")
     shut = [i for i, e in enumerate(o.rec.ev) if e[0] == "shutdown" and e[1] == tag]
     evidx = [i for i, e in enumerate(o.rec.ev) if e[0] == "ev" and e[1] == tag]
     if rejected:
